@@ -99,3 +99,50 @@ pub fn drive<F: Future>(mut fut: Pin<&mut F>, limit: usize) -> Option<F::Output>
     }
     None
 }
+
+
+// ---- helpers for the binding harness (C20): a database outside any session, and its wire image
+
+struct NoApp;
+impl crate::outstation::OutstationApplication for NoApp {}
+struct NoInfo;
+impl crate::outstation::OutstationInformation for NoInfo {}
+
+/// an outstation handle whose task is never run: only its database is used
+pub fn detached_outstation(max_events: u16) -> crate::outstation::OutstationHandle {
+    let cfg = crate::outstation::OutstationConfig::new(
+        crate::link::EndpointAddress::try_new(1024).unwrap(),
+        crate::link::EndpointAddress::try_new(1).unwrap(),
+        crate::outstation::database::EventBufferConfig::all_types(max_events),
+    );
+    let mut server = crate::tcp::Server::new_tcp_server(crate::link::LinkErrorMode::Close, "127.0.0.1:0".parse().unwrap());
+    let (handle, _future) = server
+        .add_outstation_no_spawn(cfg, Box::new(NoApp), Box::new(NoInfo), crate::outstation::DefaultControlHandler::create(), crate::app::NullListener::create(), crate::tcp::AddressFilter::Any)
+        .expect("add_outstation_no_spawn");
+    handle
+}
+
+/// everything a master could read from this database right now (all buffered events, then class 0), as response object bytes
+pub fn db_image(db: &mut crate::outstation::database::Database) -> Vec<u8> {
+    use crate::outstation::database::read::{ReadHeader, StaticReadHeader};
+    db.inner.reset();
+    db.inner.select_event_classes(crate::master::EventClasses::all());
+    let _ = db.inner.select_by_header(ReadHeader::Static(StaticReadHeader::Class0));
+    let mut buf = vec![0u8; 60_000];
+    let n = {
+        let mut cursor = scursor::WriteCursor::new(&mut buf);
+        let _ = db.inner.write_response_headers(&mut cursor);
+        cursor.position()
+    };
+    db.inner.reset();
+    buf.truncate(n);
+    buf
+}
+
+/// crate-private constructors of the control code, for the binding harness
+pub fn control_code_from(x: u8) -> crate::app::control::ControlCode {
+    crate::app::control::ControlCode::from(x)
+}
+pub fn control_code_as_u8(c: crate::app::control::ControlCode) -> u8 {
+    c.as_u8()
+}
